@@ -62,7 +62,7 @@ def geoObj (j : Json) : Except String Obj := do
   pure { id := id, parent := strD j "parent", shape := strD j "shape", box := b,
          olabel := ← optBox j "olabel", oicon := ← optBox j "oicon",
          is3d := boolD j "3d", multiple := boolD j "multiple", inSeq := boolD j "inSeq", isSeq := boolD j "isSeq",
-         constNear := boolD j "constNear", labelPos := strD j "labelPos", labelH := intD j "labelH",
+         constNear := boolD j "constNear", near := strD j "near", labelPos := strD j "labelPos", labelH := intD j "labelH",
          hasLabel := boolD j "hasLabel" }
 
 def geoEdge (j : Json) : Except String Edge := do
